@@ -2,15 +2,16 @@
    vector, operations tget / tinsert / tremove / tappend / tpop / tnth_key / titer), the table instructions
    that apply them to heap cells, reference sharing, and preservation of the table invariant by [step].
 
-   Part 1  (Section TableLevel) is generic in the key equality [eq : eqfun] and in a key domain [D]:
+   Part 1  (this file, Section TableLevel) is generic in the key equality [eq : eqfun] and in a key domain [D]:
            [eq] answers on D (no fuel exhaustion / dangling address) and every key of D matches itself.
            Nothing else is assumed: neither symmetry nor transitivity of [eq] is needed for the refinement,
            because the invariant speaks about ORDERED pairs (an earlier stored key never matches a later one).
-   Part 2  instantiates eq := veq0 F h, D := vkey F h (nil, integers, reals r with r == r, addresses of live
-           objects that are not tables) and shows stability under heap growth.
-   Part 3  instruction lemmas (InitTable, GetProperty, SetProperty, AppendTable, PopTable, Len, NthRow,
-           BeginForEach, ForEach), reference sharing.
-   Part 4  [step] preserves "every table of the heap satisfies the invariant". *)
+   Part 2  (VmTableKeys.v) instantiates eq := veq0 F h, D := vkey F h (nil, integers, reals r with r == r,
+           addresses of live objects that are not tables) and shows stability under heap growth.
+   Part 3  (VmTableKeys.v, VmTableInstr.v) instruction lemmas (InitTable, GetProperty, SetProperty, AppendTable,
+           PopTable, Len, NthRow, ForEach), reference sharing.
+   Part 4  (VmTableInstr.v, VmTableNatives.v) [step] - every opcode, every native - preserves "every table of the
+           heap satisfies the invariant". *)
 From Coq Require Import NArith ZArith List Lia Bool FinFun.
 From Cao Require Import ListUtil Bits Stacks StacksProofs Vm VmProofs VmNativeProofs C04VmProofs.
 Import ListNotations.
